@@ -75,6 +75,10 @@ class BreakdownScheduler(Entity):
         if not hasattr(target, "_broken"):
             target._broken = False  # type: ignore[attr-defined]
         self.target: Breakable = target  # type: ignore[assignment]
+        if mean_time_to_failure <= 0:
+            raise ValueError(f"mean_time_to_failure must be > 0, got {mean_time_to_failure}")
+        if mean_repair_time <= 0:
+            raise ValueError(f"mean_repair_time must be > 0, got {mean_repair_time}")
         self.mean_time_to_failure = mean_time_to_failure
         self.mean_repair_time = mean_repair_time
 
